@@ -12,8 +12,10 @@ import (
 	"fmt"
 	"math/rand"
 	"os"
+	"runtime"
 	"strings"
 	"sync"
+	"sync/atomic"
 	"testing"
 	"time"
 
@@ -56,9 +58,12 @@ func TestVerifC04Race(t *testing.T) {
 			vC04CasePrefetch(out, r)
 		}
 	}
-	if os.Getenv("VERIF_TIER") == "thorough" || vC04EnvInt("VERIF_STRESS", 0) > 0 {
-		vC04CasStress(out, r, 300)
+	// the real-goroutine race: short in the quick tier, long in the thorough one
+	budget := 2500 * time.Millisecond
+	if os.Getenv("VERIF_TIER") == "thorough" {
+		budget = 20 * time.Second
 	}
+	vC04CasStress(out, budget)
 }
 
 func vC04CaseCas(out *vC04Out, r *rand.Rand) {
@@ -303,42 +308,105 @@ func vC04CasePrefetch(out *vC04Out, r *rand.Rand) {
 		"desc": map[string]any{"pct": pct, "meanwhile": interDesc, "refresh": pfq.resp.String(), "replaced": replaced, "route": route}})
 }
 
-// vC04CasStress races one client-path write against one completion of a stale
-// or current claim on real goroutines; whatever the schedule, the client's
-// entry is the one left in the store.
-func vC04CasStress(out *vC04Out, r *rand.Rand, rounds int) {
+// vC04CasStress races, on real goroutines released by a spin barrier with a
+// swept skew, one completion of a prefetch claim (Store.ReplaceIfCurrent)
+// against one client-path operation on the same key: SetFromResponseWithKey
+// (newer data), Cache.Purge, or an expiry-style removal. Whatever the
+// schedule, what is left under the key once both returned is the client
+// path's: its entry, or nothing. Either order is legal (refresh first: it is
+// then overwritten / removed; client first: the CAS declines), so the verdict
+// never depends on the schedule; only a guard that is not atomic against the
+// client-path write can end a round differently. Runs for about `budget`.
+func vC04CasStress(out *vC04Out, budget time.Duration) {
+	if runtime.GOMAXPROCS(0) < 2 {
+		defer runtime.GOMAXPROCS(runtime.GOMAXPROCS(2))
+	}
 	env := vC04NewEnv(0, 0, 600)
 	defer env.close()
 	name := "stress.c04.test."
 	key := vC04Key(name, false)
-	bad := 0
-	for i := 0; i < rounds; i++ {
-		env.c.store.SetFromResponseWithKey(key, cutTestMsg(name, dns.RcodeSuccess, 100), time.Time{}, 0)
-		claim := env.peek(key)
-		var wg sync.WaitGroup
-		start := make(chan struct{})
-		var ok bool
-		wg.Add(2)
-		go func() {
-			defer wg.Done()
-			<-start
-			env.c.store.SetFromResponseWithKey(key, cutTestMsg(name, dns.RcodeSuccess, 200), time.Time{}, 0)
-		}()
-		go func() {
-			defer wg.Done()
-			<-start
-			ok = env.c.store.ReplaceIfCurrent(key, claim, cutTestMsg(name, dns.RcodeSuccess, 300), time.Time{}, 0)
-		}()
-		close(start)
-		wg.Wait()
-		_ = ok
-		if e := env.peek(key); e == nil || e.ttl != 200*time.Second {
-			bad++
+	q := dns.Question{Name: name, Qtype: dns.TypeA, Qclass: dns.ClassINET}
+	seed, stale := cutTestMsg(name, dns.RcodeSuccess, 100), cutTestMsg(name, dns.RcodeSuccess, 300)
+	withdrawal := cutTestNXMsg(name, 30)
+	var sink atomic.Uint64
+	spin := func(n int) {
+		var x uint64
+		for j := 0; j < n*8; j++ {
+			x += uint64(j)
 		}
+		sink.Add(x)
 	}
-	fail := ""
-	if bad > 0 {
-		fail = fmt.Sprintf("%d of %d concurrent races left the refresh's entry instead of the client's", bad, rounds)
+	variants := []string{"set", "purge", "remove"}
+	for vi, variant := range variants {
+		deadline := time.Now().Add(budget / time.Duration(len(variants)))
+		rounds, bad, refreshFirst := 0, 0, 0
+		example := ""
+		for i := 0; time.Now().Before(deadline); i++ {
+			env.c.store.SetFromResponseWithKey(key, seed, time.Time{}, 0)
+			claim := env.peek(key)
+			if claim == nil {
+				break
+			}
+			skewClient, skewRefresh := (i>>1)%131, 0
+			if i&1 == 1 {
+				skewClient, skewRefresh = 0, (i>>1)%131
+			}
+			var gate atomic.Int32
+			var wg sync.WaitGroup
+			var ok bool
+			wg.Add(2)
+			go func() {
+				defer wg.Done()
+				gate.Add(1)
+				for gate.Load() < 2 {
+				}
+				spin(skewClient)
+				switch vi {
+				case 0:
+					env.c.store.SetFromResponseWithKey(key, withdrawal, time.Time{}, 0)
+				case 1:
+					env.c.Purge(q)
+				default:
+					env.c.positive.Remove(key)
+				}
+			}()
+			go func() {
+				defer wg.Done()
+				gate.Add(1)
+				for gate.Load() < 2 {
+				}
+				spin(skewRefresh)
+				ok = env.c.store.ReplaceIfCurrent(key, claim, stale, time.Time{}, 0)
+			}()
+			wg.Wait()
+			rounds++
+			if ok {
+				refreshFirst++
+			}
+			e := env.peek(key)
+			wrong := false
+			if vi == 0 {
+				wrong = e == nil || e.ttl != 30*time.Second
+			} else {
+				wrong = e != nil
+			}
+			if wrong {
+				bad++
+				if example == "" {
+					left := "nothing"
+					if e != nil {
+						left = "an entry with ttl " + e.ttl.String()
+					}
+					example = fmt.Sprintf("round %d (ReplaceIfCurrent=%v): %s left under the key", i, ok, left)
+				}
+			}
+		}
+		fail := ""
+		if bad > 0 {
+			fail = fmt.Sprintf("a late refresh overwrote/resurrected state the client path wrote after it was claimed (%s vs ReplaceIfCurrent): %d of %d races; %s", variant, bad, rounds, example)
+		}
+		out.emit(map[string]any{"k": "cas-race-" + variant, "nontrivial": rounds > 0, "go_fail": fail, "coq": "CCas []",
+			"desc": map[string]any{"client_op": variant, "rounds": "a few thousand (time-boxed)", "bad": bad}})
+		_ = refreshFirst
 	}
-	out.emit(map[string]any{"k": "cas-stress", "nontrivial": true, "go_fail": fail, "coq": "CCas []", "desc": map[string]any{"rounds": rounds, "bad": bad}})
 }
